@@ -15,7 +15,7 @@ From V Require Export C08.Model.
 Local Open Scope Z_scope.
 
 (* ------------------------------------------------------------------ same value *)
-Definition dbl_equiv (a b : Z) : bool := (dbl_nan a && dbl_nan b) || dbl_eqb a b.
+Definition dbl_equiv (a b : Z) : bool := (dbl_nan a && dbl_nan b) || dbl_ieee_eqb a b.
 Definition scal_equiv (t : sty) (x y : scal) : bool :=
   match x, y with
   | SZ a, SZ b => match t with TDbl => dbl_equiv a b | _ => a =? b end
